@@ -137,6 +137,11 @@ func c06AfterClose(c *fw.Ctx, conn *websocket.Conn, withCloses bool, replay inte
 	}
 	c.AddTransitions(1)
 
+	if !ok {
+		// the connection is evidently still open (a call that must fail succeeded): a Ping
+		// would wait for its Pong until the guard ends it; the violation is recorded already
+		return false
+	}
 	if p := fw.Recover(func() { err = conn.Ping(ctx) }); p != "" {
 		fail("C06/panic", "Ping after close panicked: "+p)
 		return false
